@@ -184,10 +184,11 @@ def env0 : NameEnv := ⟨[], [], []⟩
 def wDedup : AnnExpr :=
   .union [.gen true C.list [.bor (.cls C.int) (.cls C.str)], .gen true C.list [.union [.cls C.str, .cls C.int]]]
 
-/-- `starUnpack`: the AST route raises, the runtime route returns the nested tuple. -/
+/-- `starUnpack`: the AST route reports "Unsupported syntax in annotation: Starred" and reads the starred
+member as `Any` (`tuple[int, Any]`, one error), the runtime route returns the nested tuple without an error. -/
 theorem witness_starUnpack_routes : ¬ RoutesAgree look0 wStar := by
   intro h
-  have := congrArg Option.isSome (h false)
+  have := congrArg (fun r => r.map (·.errs)) (h false)
   revert this
   decide
 
